@@ -61,6 +61,15 @@ CLAIMS = {
         note="history dimension enumerated with concrete parameters (matrices are numpy); the "
              "solver quantifies only over the probe point; Point.to_vector shimmed",
         ref="§4 C13"),
+    "C04": dict(
+        text="For an enumerated family of transforms (single operations with/without pivot and "
+             "compositions, built through the real API) z3 shows for ALL tracked positions and arguments "
+             "in [-1000,1000] that after move/rapid/probe the interpreted machine position equals the "
+             "independently composed matrix applied to the independently computed target (both modes, "
+             "partial axes), i.e. words are the (linear) image and every axis that must change is emitted.",
+        note="transform dimension enumerated with concrete parameters; tolerance 1e-6; all axes "
+             "known in the pre-state; floats as reals",
+        ref="§4 C04"),
     "C07": dict(
         text="Inductive step of I7: after any of 96 call shapes from an arbitrary consistent state "
              "(symbolic feed, power, temperatures, E parameter, tool number) every state property "
